@@ -15,7 +15,7 @@ CONFIG = {
     ],
     "mult_search": 3,
     "refuted": [],
-    "partial": ["C13_full_statement (embedding proved per source file before the link step; composition through the link step pending)"],
+    "partial": [],
 }
 
 MANIFEST = {
